@@ -698,9 +698,17 @@ impl<'a> Searcher<'a> {
                                         let mut ok = false;
 
                                         if file_type.is_symlink() {
-                                            if let Ok(resolved) = std::fs::read_link(&path) {
-                                                ok = true;
-                                                path = resolved;
+                                            if self.current_follow_symlinks {
+                                                if let Ok(resolved) = std::fs::read_link(&path) {
+                                                    // a relative target is relative to the link's own
+                                                    // directory; links to anything but a directory
+                                                    // are simply listed
+                                                    let target = dir.join(resolved);
+                                                    if target.is_dir() {
+                                                        ok = true;
+                                                        path = target;
+                                                    }
+                                                }
                                             }
                                         } else if file_type.is_dir() {
                                             ok = true;
